@@ -1,3 +1,40 @@
+(* C10  I-vectors are posterior means; covariance floor.  (EM monotonicity: see DESIGN.md - partial.) *)
 From Coq Require Import Reals List.
-Theorem placeholder : True. Proof. exact I. Qed.
-Print Assumptions placeholder.
+From BLE Require Import Num.InstR Model.IVector Proofs.RLemmas Proofs.IVectorR.
+Import ListNotations IR.
+Open Scope R_scope.
+
+Theorem C10_ivector_solves_posterior_mean_equation inv (t : nat) (m : ivm) (s : gstat) :
+  inv_ok inv t (precision t m s) ->
+  V.matvec (precision t m s) (project inv t m s) = linterm t m s /\ length (project inv t m s) = t.
+Proof. exact (project_solves inv t m s). Qed.
+Print Assumptions C10_ivector_solves_posterior_mean_equation.
+
+Theorem C10_posterior_mean_equation_has_unique_solution (C D t : nat) (m : ivm) (s : gstat) (w w' : list R) :
+  ivm_ok C D t m -> gstat_ok C D s -> length w = t -> length w' = t ->
+  V.matvec (precision t m s) w = linterm t m s -> V.matvec (precision t m s) w' = linterm t m s -> w = w'.
+Proof. exact (fun Hm Hs => project_unique C D t m s Hm Hs w w'). Qed.
+Print Assumptions C10_posterior_mean_equation_has_unique_solution.
+
+Theorem C10_precision_is_identity_plus_psd (C D t : nat) (m : ivm) (s : gstat) (d : list R) :
+  ivm_ok C D t m -> gstat_ok C D s -> length d = t ->
+  dotR d d <= dotR d (V.matvec (precision t m s) d).
+Proof. exact (fun Hm Hs => precision_quadratic_form C D t m s Hm Hs d). Qed.
+Print Assumptions C10_precision_is_identity_plus_psd.
+
+Theorem C10_no_frames_give_zero_ivector inv (t : nat) (m : ivm) (s : gstat) :
+  inv_ok inv t (precision t m s) ->
+  Forall (fun n => n = 0) (g_n s) -> Forall (Forall (fun f => f = 0)) (g_px s) ->
+  project inv t m s = V.vzero t.
+Proof. exact (project_zero_stats inv t m s). Qed.
+Print Assumptions C10_no_frames_give_zero_ivector.
+
+Theorem C10_covariances_never_below_floor inv (D t : nat) (floor : R) (m : ivm) (st : acc) :
+  Forall (Forall (fun v => floor <= v)) (iv_sigma (m_step inv D t true floor m st)).
+Proof. exact (sigma_floor inv D t floor m st). Qed.
+Print Assumptions C10_covariances_never_below_floor.
+
+Theorem C10_covariances_untouched_without_update inv (D t : nat) (floor : R) (m : ivm) (st : acc) :
+  iv_sigma (m_step inv D t false floor m st) = iv_sigma m.
+Proof. exact (sigma_unchanged inv D t floor m st). Qed.
+Print Assumptions C10_covariances_untouched_without_update.
